@@ -99,7 +99,7 @@ static void canon(unsigned char *reg, char *out) {
 }
 
 /* ---------- well-formedness (C07), independent of the library's own traversal code ---------- */
-static long n_wf, kinds_seen[4], n_reloc, n_promote;
+static long n_wf, kinds_seen[4], n_reloc, n_promote, n_soft;
 static void wellformed(unsigned char *reg, const model_t *m, const char *after) {
     qhasharr_slot_t *s = SL(reg); qhasharr_data_t *h = HD(reg);
     n_wf++;
@@ -263,7 +263,7 @@ static int transition(const unsigned char *image, const model_t *m0, int opi, ch
     place_t p = place_new(image); *m1 = *m0; int e1, e2;
     qhasharr_slot_t before[16]; memcpy(before, SL(p.reg), sizeof(qhasharr_slot_t) * M);
     int r1 = run_op(p.reg, &OPS[opi], m1, 1, after, &e1);
-    wellformed(p.reg, m1, after);
+    { long w0 = vc_nviol; wellformed(p.reg, m1, after); n_soft += vc_nviol - w0; }   /* structural findings do not prune the search: the map oracle goes on from the damaged image */
     /* relocation / promotion bookkeeping for the vacuity guard */
     for (int i = 0; i < M; i++) { qhasharr_slot_t *s = SL(p.reg); if (before[i].count < 0 && s[i].count >= 1 && OPS[opi].kind == OP_PUT) n_reloc++; if (before[i].count > 1 && s[i].count >= 1 && OPS[opi].kind != OP_PUT && before[i].data.pair.namesize && memcmp(before[i].data.pair.namemd5, s[i].data.pair.namemd5, 16)) n_promote++; }
     qhasharr_t *h1 = qhasharr(p.reg, 0); observe(h1, m1, 1, "first handle", after, d1);
@@ -320,9 +320,9 @@ static int search(void) {
         for (int op = 0; op < NOPS; op++) {
             sprintf(k, "%d", op);
             if (!vc_case(OPS[op].label, key)) continue;
-            long v0 = vc_nviol; model_t m1;
+            long v0 = vc_nviol - n_soft; model_t m1;
             transition(cur, &mc, op, ckey, nimg, &m1);
-            if (vc_nviol == v0 && bfs_visit(&b, ckey)) { long ni = bfs_push(&b, idx, op, d + 1); img_store(ni, nimg, &m1); if (b.nnodes <= 3 || (b.nnodes % 20000) == 0) vc_sample("history %s -> image %s", key, ckey); }
+            if (vc_nviol - n_soft == v0 && bfs_visit(&b, ckey)) { long ni = bfs_push(&b, idx, op, d + 1); img_store(ni, nimg, &m1); if (b.nnodes <= 3 || (b.nnodes % 20000) == 0) vc_sample("history %s -> image %s", key, ckey); }
             vc_case_end();
         }
     }
